@@ -799,10 +799,14 @@ fn per_ip_connections(env: Env, n: usize, tls: bool) -> Result<(Vec<Option<u16>>
         let mut c = H1Conn::new(conn);
         c.r.write_all(&request_bytes("c3.lab", &format!("/p{k}"), None, &[])).map_err(|e| format!("write: {e}"))?;
         let _ = c.r.flush();
+        let t0 = Instant::now();
         statuses.push(match c.next_message(Kind::Response { head_request: false }, Instant::now() + Duration::from_secs(4)) {
             ReadOutcome::Message(m) => m.status(),
             _ => None,
         });
+        if std::env::var("VP_C16_DUMP").is_ok() && statuses.last() != Some(&Some(200)) {
+            eprintln!("per-ip connection {k}: {:?} after {:?}", statuses.last(), t0.elapsed());
+        }
         open.push(c);
     }
     Ok((statuses, open))
@@ -1308,7 +1312,7 @@ pub fn scenario(lab: &mut StormLab, case: &Case) -> CheckResult {
         .collect();
     let storm = format!("{} interactions, {} at a time: [{}]", interactions.len(), workers, kinds.join(", "));
     if std::env::var("VP_C16_DUMP").is_ok() {
-        eprintln!("storm: {storm}; details: {:?}", seen.iter().filter_map(|s| s.as_ref().err()).collect::<Vec<_>>());
+        eprintln!("storm (case seed {}): {storm}; details: {:?}", case.seed, seen.iter().filter_map(|s| s.as_ref().err()).collect::<Vec<_>>());
     }
 
     // ---- phase 1: clients that went idle still hold their sockets, open and silent: the worker's own
